@@ -185,21 +185,8 @@ def run(ctx):
     registries_emptied(ctx, program, "R14.1")
 
     # R14.3 all done-callbacks attempted ---------------------------------------------------------------------------
-    ctx.rule("R14.3", "the done-callback loop continues after a failing callback and cannot skip the cleanup", floor=1)
-    loops = [l for l in body_walk(fn) if isinstance(l, ast.For) and "task2cb" in norm(l.iter)]
-    if not loops:
-        raise AnalysisError("run_coro: done-callback loop not found")
-    for loop in loops:
-        bad = None
-        for t in ast.walk(loop):
-            if isinstance(t, ast.ExceptHandler):
-                for m in ast.walk(t):
-                    if isinstance(m, (ast.Break, ast.Return)) or (isinstance(m, ast.Raise)):
-                        bad = m
-        has_try = any(isinstance(t, ast.Try) for t in ast.walk(loop))
-        ctx.check(bad is None and has_try, "R14.3", RUN_CORO, "callback loop: each call protected, loop not left on failure",
-                  msg="run_coro: after one done-callback raises the loop is left (`%s`), so the remaining callbacks never run" % (short(bad) if bad is not None else "no try around the callback call"),
-                  key="done-callback loop leaves on failure", node=bad or loop, rel="function.py")
+    ctx.rule("R14.3", "a done callback that raises is reported once through the script logger and neither stops the remaining callbacks nor the cleanup (run_coro interpreted on three callbacks)", floor=2)
+    callback_mutation_table(ctx, program, "R14.3", only=("raise", "raise-last"))
 
     # R14.5 who may insert / remove registry entries -----------------------------------------------------------------
     ctx.rule("R14.5", "task-keyed registries are inserted into / removed from only at the reviewed owner sites; accumulating entries are created under a not-in guard", floor=8)
@@ -368,19 +355,35 @@ def cancel_table(ctx, program, rid):
 
 class _LivePolicy(FlowPolicy):
     live_lists = True  # containers iterated in place behave as Python's iterators do (a dict that changes size raises RuntimeError)
+    on_callback = None  # summary of `<evaluator>.call_func(callback, ...)`, whatever the evaluator variable is called
+    on_log = None
+
+    def call(self, interp, node, fname, fval, args, kwargs, cfg, out):
+        label = self.label(fname, fval) or ""
+        if self.on_callback is not None and label.endswith(".call_func"):
+            return self.on_callback(interp, node, args, kwargs, cfg, out)
+        if self.on_log is not None and label.endswith(".log_exception"):
+            return self.on_log(interp, node, args, kwargs, cfg, out)
+        return super().call(interp, node, fname, fval, args, kwargs, cfg, out)
 
 
-def callback_mutation_table(ctx, program, rid):
+def callback_mutation_table(ctx, program, rid, only=None):
     from ..absint import NONE, ObjV
     fn = program.func(RUN_CORO)
 
     def info():
         return ListV((ObjV("actx", "AstEval"), ListV((), "tuple"), DictV([])), "list")
 
-    for mutate in (None, "remove", "add", "claim"):
+    for mutate in (None, "remove", "add", "claim", "raise", "raise-last"):
+        if (only is not None and mutate not in only) or (only is None and mutate in ("raise", "raise-last")):
+            continue
+
         def call_func(i, n, a, k, c, o, mutate=mutate):
             cb = a[0]
             c = c.hset("$ran", ListV(c.heap.get("$ran", ListV(())).items + (cb,)))
+            if mutate in ("raise", "raise-last") and cb == Const("cb1" if mutate == "raise" else "cb3"):
+                o.add("raise", c.set("$exc", ExcV("Exception", f"user code in {cb.v}")))
+                return []
             if cb == Const("cb1") and mutate:
                 t2cb = c.heap["Function.task2cb"]
                 ent = t2cb.get(Const("T"))
@@ -396,7 +399,9 @@ def callback_mutation_table(ctx, program, rid):
                 c = c.hset("Function.task2cb", t2cb.set(Const("T"), ent.set(Const("cb"), cbs2)))
             return [(c, NONE)]
 
-        pol = _LivePolicy(program, may_raise_all=False, cancel=False, summaries={"ast_ctx.call_func": call_func, "asyncio.current_task": lambda i, n, a, k, c, o: [(c, Const("T"))]})
+        pol = _LivePolicy(program, may_raise_all=False, cancel=False, summaries={"asyncio.current_task": lambda i, n, a, k, c, o: [(c, Const("T"))]})
+        pol.on_callback = call_func
+        pol.on_log = lambda i, n, a, k, c, o: [(c.hset("$logged", Const(c.heap.get("$logged", Const(0)).v + 1)), NONE)]
         heap = {"Function.task2cb": DictV([(Const("T"), DictV([(Const("ctx"), ObjV("actx", "AstEval")), (Const("cb"), DictV([(Const("cb1"), info()), (Const("cb2"), info()), (Const("cb3"), info())]))]))]),
                 "Function.our_tasks": ListV((), "set"), "Function.unique_task2name": DictV([]), "Function.unique_name2task": DictV([]), "Function.task2context": DictV([])}
         out = run_flow(program, RUN_CORO, pol, args={"cls": ClassV("Function"), "coro": Sym(("coro",)), "ast_ctx": NONE}, heap=heap)
@@ -408,12 +413,15 @@ def callback_mutation_table(ctx, program, rid):
                 bad = f"run_coro leaves with {d} after running {ran}"
             elif any(ran.count(x) != 1 for x in ("cb1", "cb3")) or ran.count("cb2") > 1 or (mutate != "remove" and ran.count("cb2") != 1):
                 bad = f"callbacks run: {ran}"
+            elif mutate in ("raise", "raise-last") and c.heap.get("$logged", Const(0)) != Const(1):
+                bad = f"the failing callback is reported {c.heap.get('$logged', Const(0)).v} time(s) through log_exception (callbacks run: {ran})"
             elif c.heap.get("Function.task2cb") != DictV([]):
                 bad = f"the task's callback table is not forgotten: {c.heap.get('Function.task2cb')!r}"
             elif c.heap.get("Function.unique_task2name") != DictV([]) or c.heap.get("Function.unique_name2task") != DictV([]):
                 bad = (f"a finished task still owns unique names: {c.heap.get('Function.unique_name2task')!r} - names claimed by user code that runs for the task (a done callback) "
                        f"must be released too, so the release has to come after the last callback")
         what = {None: "callbacks leave the table alone", "remove": "the first callback removes the second one", "add": "the first callback adds a fourth one",
-                "claim": "the first callback claims a unique name (task.unique) for the finishing task"}[mutate]
+                "claim": "the first callback claims a unique name (task.unique) for the finishing task", "raise": "the first callback raises",
+                "raise-last": "the last callback raises"}[mutate]
         ctx.check(bool(ex) and bad is None, rid, RUN_CORO, f"three done callbacks, {what}", msg=f"run_coro with three done callbacks where {what}: {bad or 'no exit'} - "
                   f"the remaining callbacks are skipped and the task ends with an exception", key=f"callback mutation {mutate}", node=fn, rel="function.py")
